@@ -262,9 +262,54 @@ func (m *monC10) launchRule(ctx sdk.Context, obs map[string]cObs) {
 			if o.ValSetLen == 0 {
 				w.Violation("C10", "launched-with-empty-validator-set", map[string]any{"consumer": id})
 			}
+			// the initial set contains an active provider validator (a member of the provider's own consensus set, which
+			// BeginBlock does not change)
+			if rec, err := pk.GetLastProviderConsensusValSet(ctx); err == nil {
+				active := map[string]bool{}
+				for _, r := range rec {
+					active[consHex(r.ProviderConsAddr)] = true
+				}
+				nAct := 0
+				if vs, err := pk.GetConsumerValSet(ctx, id); err == nil {
+					for _, v := range vs {
+						if active[consHex(v.ProviderConsAddr)] {
+							nAct++
+						}
+					}
+					if nAct == 0 && len(vs) > 0 {
+						w.Violation("C10", "launched-without-active-provider-validator", map[string]any{"consumer": id, "set_size": len(vs), "provider_set": len(rec)})
+					}
+					if nAct < len(vs) {
+						w.Event("C10", "launches-with-inactive-members")
+					}
+				}
+			}
 			m.checkArtefacts(ctx, id, o)
 		case phReg:
 			w.Event("C10", "launch-failed")
+			// classify: opted-in validators exist but none of them is active (the "contains an active validator" clause)
+			if rec, err := pk.GetLastProviderConsensusValSet(ctx); err == nil {
+				active := map[string]bool{}
+				for _, r := range rec {
+					active[consHex(r.ProviderConsAddr)] = true
+				}
+				opted, optedActive := 0, 0
+				for _, a := range pk.GetAllOptedIn(ctx, id) {
+					opted++
+					if active[consHex(a.ToSdkConsAddr())] {
+						optedActive++
+					}
+				}
+				switch {
+				case opted == 0:
+					w.Case("C10", "launch-failed:nobody-opted-in")
+				case optedActive == 0:
+					w.Case("C10", "launch-failed:only-inactive-validators-opted-in")
+					w.Event("C10", "launch-failed-only-inactive-opted-in")
+				default:
+					w.Case("C10", "launch-failed:other")
+				}
+			}
 			if !o.Spawn.IsZero() {
 				w.Violation("C10", "failed-launch-spawn-time-not-cleared", map[string]any{"consumer": id, "spawn": o.Spawn.String()})
 			}
